@@ -45,6 +45,16 @@ CLAIMED = {
               "exact decimal -> rational with CPython's correctly rounded float trusted; extraction (ExtrOcamlBasic). Modelling limits: non-Latin-1 "
               "characters, '_' separators, nan/inf spellings; a/0 raises ZeroDivisionError un-wrapped (modelled, outside the property)."),
         ref="§3-C17"),
+    "C16": dict(
+        technique="Coq theorems (axiom-free) about an I/O model instantiated at class tables regenerated from species.py + round trips through real files",
+        text=("proof (full on the model): json.load(json.dump v) = v up to tuple->list for every JSON-representable value (induction over the nested "
+              "value type); for each of Monatomic / Diatomic / Polyatomic and every argument list, save-then-load of the constructed object yields the "
+              "same class and attribute-wise equal data in the same order (the positional alignment of from_file with the constructors is decided by "
+              "computation on lists regenerated from species.py's AST each run); constructors are total; dispatch thresholds as documented. "
+              "Identical derived quantities and from_name = from_file are checked on real files."),
+        note=("Trusted: Coq kernel (closed under the global context); gen_speciesio AST extraction (fail-closed); hand interpreter SpeciesIO.v tied by "
+              "running it against real objects; json library modelled as a bijection JSON tree <-> text; NaN excluded; class must match atom count."),
+        ref="§3-C16"),
 }
 
 NOT_YET = {}
